@@ -9,8 +9,10 @@
     construction, DESIGN.md section 3).  [case_valid] is C19's "chain valid under the Matter rules up to
     this root, carrying this fabric id". *)
 From RsM Require Import Lib.MachInt Model.Cert Model.CertSpec Model.Case Model.CaseSpec
+  Model.CaseDY
   Proofs.CaseFacts Proofs.CaseResponder Proofs.CaseInitiator Proofs.CaseHistory Proofs.CaseBinding
-  Proofs.CaseMonitor Proofs.CaseWitness.
+  Proofs.CaseMonitor Proofs.CaseWitness Proofs.CaseDYFacts Proofs.CaseDYOutputs Proofs.CaseDYBinding
+  Proofs.CaseDYWitness.
 Open Scope N_scope.
 
 (** RESPONDER.  The handler of one exchange, on a node with a well-formed fabric table, fed ANY sequence
@@ -143,6 +145,305 @@ Theorem C01_resume_binding_partial : forall a b fra fab peer m1' m2' sa sb,
 Proof. exact resume_binding_partial. Qed.
 Print Assumptions C01_resume_binding_partial.
 
+(* ================================================================ Dolev-Yao: the full theorems *)
+
+(** DOLEV-YAO CLOSURE ([Model/CaseDY.v]: [derivable K t] - pairing / projection, hashing, HKDF / HMAC / AEAD /
+    signature application with known inputs, decryption with a known key, message recovery from a signature,
+    public keys of known secrets, ECDH with one known secret; numbers, certificates, byte strings public).
+    SECRECY: if everything in [K] is [guarded] (no secret nonce - IPK, ephemeral ECDH secret - and no honest
+    signing key occurs outside a key position, a hash, or behind a public key), so is everything derivable. *)
+Theorem C01_dy_secrecy :
+  forall (SN SK : list N) (K : knowledge),
+  (forall t : term, K t -> guarded SN SK t) -> forall t : term, derivable K t -> guarded SN SK t.
+Proof. exact derivable_guarded. Qed.
+Print Assumptions C01_dy_secrecy.
+
+(** ORIGIN: a ciphertext under a key that is not [guarded], occurring anywhere in a derivable term, already
+    occurs in the knowledge - the attacker cannot have produced it (INT-CTXT, derived in the symbolic model). *)
+Theorem C01_dy_origin :
+  forall (SN SK : list N) (K : knowledge),
+  (forall t : term, K t -> guarded SN SK t) ->
+  forall t : term,
+  derivable K t ->
+  forall k n pt : term,
+  ~ guarded SN SK k -> sub (TAead k n pt) t -> exists t0 : term, K t0 /\ sub (TAead k n pt) t0.
+Proof. exact aead_origin. Qed.
+Print Assumptions C01_dy_origin.
+
+(** THE TWO-RUN SYSTEM ([dy_run]: one initiator run on node a, one responder run on node b, the four messages
+    in between chosen by the attacker; [dy_world]: what the attacker does NOT have - the IPK of the initiator's
+    fabric, the two ephemeral secrets, the signing keys [SK] - and freshness of the two randoms; it may hold any
+    number of own keys, nonces, fabrics and every message of earlier runs).  Whatever the attacker derives at
+    any point of the run, under any schedule, is [guarded]: *)
+Theorem C01_run_guarded :
+  forall (K0 : knowledge) (SK : list N) (ipk : N) (fa : fabric) (r : dy_run),
+  dy_world K0 SK ipk fa r ->
+  forall t : term, derivable (know5 K0 r) t -> guarded (secret_nonces ipk r) SK t.
+Proof. exact run_secrecy. Qed.
+Print Assumptions C01_run_guarded.
+
+(** ... so neither the IPK, nor an ephemeral secret, nor an honest signing key, nor ANY key derived from the
+    IPK (S2K, S3K, the three session keys) is ever derivable. *)
+Theorem C01_secrets_not_derivable :
+  forall (K0 : knowledge) (SK : list N) (ipk : N) (fa : fabric) (r : dy_run),
+  dy_world K0 SK ipk fa r ->
+  ~ derivable (know5 K0 r) (TNonce ipk) /\
+  ~ derivable (know5 K0 r) (TNonce (fr_eph (dr_fra r))) /\
+  ~ derivable (know5 K0 r) (TNonce (fr_eph (dr_frb r))) /\
+  (forall k : N, In k SK -> ~ derivable (know5 K0 r) (TKey k)) /\
+  (forall x y z : term, ~ derivable (know5 K0 r) (THkdf (TPair (TNonce ipk) x) y z)).
+Proof. exact secrets_not_derivable. Qed.
+Print Assumptions C01_secrets_not_derivable.
+
+(** The first unforgeability hypothesis of the partial theorem, DERIVED: the TBE2 ciphertext that decrypts
+    under the initiator's Sigma2 key was put on the wire by the responder run as the TBE2 of its Sigma2. *)
+Theorem C01_tbe2_from_responder :
+  forall (K0 : knowledge) (SK : list N) (ipk : N) (fa : fabric) (r : dy_run),
+  dy_world K0 SK ipk fa r ->
+  forall (m2' : msg) (rr rpub sh pt : term),
+  msg_derivable (know1 K0 r) (dr_m1 r) ->
+  msg_derivable (know2 K0 r) m2' ->
+  get_req m2' 4 KBytes =
+  Ok
+    (TAead
+       (s2k (TNonce ipk) rr rpub
+          (h1 (msg_term (sigma1_of (dr_a r) (dr_fra r) (dr_fab r) (dr_peer r) fa))) sh)
+       (TNum NONCE_S2) pt) ->
+  exists (q : sigma1) (f : fabric),
+    parse_sigma1 (dr_m1 r) = Ok q /\
+    get_by_dest_id (n_fabrics (dr_b r)) (g1_random q) (g1_dest q) = Some f /\
+    ro_msgs (run_r1 r) = [build_sigma2 f (dr_frb r) (g1_pub q) (msg_term (dr_m1 r))] /\
+    get_req (build_sigma2 f (dr_frb r) (g1_pub q) (msg_term (dr_m1 r))) 4 KBytes =
+    Ok
+      (TAead
+         (s2k (TNonce ipk) rr rpub
+            (h1 (msg_term (sigma1_of (dr_a r) (dr_fra r) (dr_fab r) (dr_peer r) fa))) sh)
+         (TNum NONCE_S2) pt).
+Proof. exact tbe2_origin. Qed.
+Print Assumptions C01_tbe2_from_responder.
+
+(** The second one, DERIVED: the TBE3 ciphertext that decrypts under the responder's Sigma3 key (fabric with
+    the secret IPK) was put on the wire by the initiator run as the TBE3 of its Sigma3, which it sends only after
+    having accepted the second message as a Sigma2 (chain valid, node id, signature). *)
+Theorem C01_tbe3_from_initiator :
+  forall (K0 : knowledge) (SK : list N) (ipk : N) (fa : fabric) (r : dy_run),
+  dy_world K0 SK ipk fa r ->
+  forall (fb : fabric) (q : sigma1) (sh pt : term),
+  f_ipk fb = TNonce ipk ->
+  msg_derivable (know1 K0 r) (dr_m1 r) ->
+  msg_derivable (know2 K0 r) (dr_m2 r) ->
+  msg_derivable (know3 K0 r) (dr_m3 r) ->
+  get_req (dr_m3 r) 1 KBytes =
+  Ok
+    (TAead
+       (s3k (TNonce ipk)
+          (h12 (msg_term (dr_m1 r))
+             (msg_term (build_sigma2 fb (dr_frb r) (g1_pub q) (msg_term (dr_m1 r))))) sh)
+       (TNum NONCE_S3) pt) ->
+  exists (rr rpub : term) (noc : cert) (icac : option cert) (sig rid : term) 
+  (cats : list N),
+    io_msgs (run_i2 r) =
+    [build_sigma3 fa (TPub (TNonce (fr_eph (dr_fra r)))) rpub
+       (msg_term (sigma1_of (dr_a r) (dr_fra r) (dr_fab r) (dr_peer r) fa)) 
+       (msg_term (dr_m2 r)) (dh (TNonce (fr_eph (dr_fra r))) rpub)] /\
+    get_req (dr_m2 r) 1 KBytes = Ok rr /\
+    get_req (dr_m2 r) 3 KBytes = Ok rpub /\
+    get_req (dr_m2 r) 4 KBytes =
+    Ok
+      (TAead
+         (s2k (TNonce ipk) rr rpub
+            (h1 (msg_term (sigma1_of (dr_a r) (dr_fra r) (dr_fab r) (dr_peer r) fa)))
+            (dh (TNonce (fr_eph (dr_fra r))) rpub)) (TNum NONCE_S2) (tbe2_plain noc icac sig rid)) /\
+    case_valid (n_clock (dr_a r)) (f_fid fa) (f_root fa) noc icac /\
+    get_node_id noc = Some (dr_peer r) /\
+    cats_of noc = Ok cats /\
+    sig = TSig (TKey (pubkey noc)) (tbs noc icac rpub (TPub (TNonce (fr_eph (dr_fra r))))) /\
+    get_req
+      (build_sigma3 fa (TPub (TNonce (fr_eph (dr_fra r)))) rpub
+         (msg_term (sigma1_of (dr_a r) (dr_fra r) (dr_fab r) (dr_peer r) fa)) 
+         (msg_term (dr_m2 r)) (dh (TNonce (fr_eph (dr_fra r))) rpub)) 1 KBytes =
+    Ok
+      (TAead
+         (s3k (TNonce ipk)
+            (h12 (msg_term (dr_m1 r))
+               (msg_term (build_sigma2 fb (dr_frb r) (g1_pub q) (msg_term (dr_m1 r))))) sh)
+         (TNum NONCE_S3) pt).
+Proof. exact tbe3_origin. Qed.
+Print Assumptions C01_tbe3_from_initiator.
+
+(** TRANSCRIPT BINDING, FULL (no unforgeability hypothesis).  For arbitrary delivered messages the attacker can
+    derive: if the initiator completed ([IDone true]) and the responder gained an operational session [sb] in
+    answer to a Sigma3, then the delivered Sigma1 and Sigma2 are the ones sent, Sigma3 arrived with its encrypted3
+    element as sent, both fabrics carry the secret IPK, each end is bound to the credentials the other one holds,
+    the directional keys agree crosswise EXACTLY WHEN Sigma3 arrived as sent - otherwise the run is in the known
+    class [sigma3_alt] (bytes of Sigma3 outside encrypted3 altered: finding keys-differ-sigma3-unauthenticated-bytes)
+    - and the attacker can derive none of the four keys. *)
+Theorem C01_transcript_binding :
+  forall (K0 : knowledge) (SK : list N) (ipk : N) (fa : fabric) (r : dy_run),
+  dy_world K0 SK ipk fa r ->
+  forall sb : session,
+  node_wf (dr_a r) ->
+  node_wf (dr_b r) ->
+  attacker_sends K0 r ->
+  initiator_completed r ->
+  responder_completed r sb ->
+  exists (sa : session) (fb : fabric) (q : sigma1) (rpub : term),
+    n_sessions (io_node (run_i3 r)) = n_sessions (dr_a r) ++ [sa] /\
+    parse_sigma1 (dr_m1 r) = Ok q /\
+    get_by_dest_id (n_fabrics (dr_b r)) (g1_random q) (g1_dest q) = Some fb /\
+    get_req (dr_m2 r) 3 KBytes = Ok rpub /\
+    (let m2 := build_sigma2 fb (dr_frb r) (g1_pub q) (msg_term (dr_m1 r)) in
+     let m3 :=
+       initiator_sigma3 fa (dr_fra r) rpub (sigma1_of (dr_a r) (dr_fra r) (dr_fab r) (dr_peer r) fa)
+         (dr_m2 r) in
+     io_msgs (run_i1 r) = [sigma1_of (dr_a r) (dr_fra r) (dr_fab r) (dr_peer r) fa] /\
+     ro_msgs (run_r1 r) = [m2] /\
+     io_msgs (run_i2 r) = [m3] /\
+     msg_term (dr_m1 r) = msg_term (sigma1_of (dr_a r) (dr_fra r) (dr_fab r) (dr_peer r) fa) /\
+     msg_term (dr_m2 r) = msg_term m2 /\
+     get_req (dr_m3 r) 1 KBytes = get_req m3 1 KBytes /\
+     f_ipk fb = TNonce ipk /\
+     s_fab sa = dr_fab r /\
+     s_peer sa = dr_peer r /\
+     get_node_id (f_noc fb) = Some (dr_peer r) /\
+     cats_of (f_noc fb) = Ok (s_cats sa) /\
+     s_fab sb = f_idx fb /\
+     get_node_id (f_noc fa) = Some (s_peer sb) /\
+     cats_of (f_noc fa) = Ok (s_cats sb) /\
+     (s_enc sa = s_dec sb /\ s_dec sa = s_enc sb <-> msg_term (dr_m3 r) = msg_term m3) /\
+     (msg_term (dr_m3 r) <> msg_term m3 -> sigma3_alt m3 (dr_m3 r) = true) /\
+     ~ derivable (know5 K0 r) (s_enc sa) /\
+     ~ derivable (know5 K0 r) (s_dec sa) /\
+     ~ derivable (know5 K0 r) (s_enc sb) /\ ~ derivable (know5 K0 r) (s_dec sb)).
+Proof. exact transcript_binding. Qed.
+Print Assumptions C01_transcript_binding.
+
+(** ONE END: the initiator completed.  The final StatusReport is not authenticated, so this says NOTHING about
+    the responder having accepted Sigma3 (an attacker can turn the responder's refusal into a success:
+    [C01_ex_forged_status]).  What the attacker CANNOT achieve: the responder run did answer THIS Sigma1 with its
+    Sigma2 for a fabric holding the secret IPK; random, ephemeral key and TBE2 of Sigma2 arrived as sent; the
+    session is bound to the responder's installed credentials; its keys are those of the untampered run exactly
+    when the whole Sigma2 arrived as sent (its session id and session parameters are authenticated only by the
+    responder's acceptance of Sigma3), and the attacker cannot derive them. *)
+Theorem C01_initiator_only :
+  forall (K0 : knowledge) (SK : list N) (ipk : N) (fa : fabric) (r : dy_run),
+  dy_world K0 SK ipk fa r ->
+  node_wf (dr_a r) ->
+  msg_derivable (know1 K0 r) (dr_m1 r) ->
+  msg_derivable (know2 K0 r) (dr_m2 r) ->
+  initiator_completed r ->
+  exists (sa : session) (fb : fabric) (q : sigma1) (rpub : term),
+    n_sessions (io_node (run_i3 r)) = n_sessions (dr_a r) ++ [sa] /\
+    s_reserved sa = false /\
+    parse_sigma1 (dr_m1 r) = Ok q /\
+    get_by_dest_id (n_fabrics (dr_b r)) (g1_random q) (g1_dest q) = Some fb /\
+    get_req (dr_m2 r) 3 KBytes = Ok rpub /\
+    (let m2 := build_sigma2 fb (dr_frb r) (g1_pub q) (msg_term (dr_m1 r)) in
+     let m3 :=
+       initiator_sigma3 fa (dr_fra r) rpub (sigma1_of (dr_a r) (dr_fra r) (dr_fab r) (dr_peer r) fa)
+         (dr_m2 r) in
+     ro_msgs (run_r1 r) = [m2] /\
+     f_ipk fb = TNonce ipk /\
+     msg_term (dr_m1 r) = msg_term (sigma1_of (dr_a r) (dr_fra r) (dr_fab r) (dr_peer r) fa) /\
+     get_req (dr_m2 r) 1 KBytes = get_req m2 1 KBytes /\
+     get_req (dr_m2 r) 3 KBytes = get_req m2 3 KBytes /\
+     get_req (dr_m2 r) 4 KBytes = get_req m2 4 KBytes /\
+     s_fab sa = dr_fab r /\
+     s_peer sa = dr_peer r /\
+     get_node_id (f_noc fb) = Some (dr_peer r) /\
+     cats_of (f_noc fb) = Ok (s_cats sa) /\
+     s_enc sa =
+     sess_key 0 (TNonce ipk)
+       (h123 (msg_term (sigma1_of (dr_a r) (dr_fra r) (dr_fab r) (dr_peer r) fa)) 
+          (msg_term (dr_m2 r)) (msg_term m3)) (dh (TNonce (fr_eph (dr_fra r))) rpub) /\
+     s_dec sa =
+     sess_key 1 (TNonce ipk)
+       (h123 (msg_term (sigma1_of (dr_a r) (dr_fra r) (dr_fab r) (dr_peer r) fa)) 
+          (msg_term (dr_m2 r)) (msg_term m3)) (dh (TNonce (fr_eph (dr_fra r))) rpub) /\
+     ~ derivable (know5 K0 r) (s_enc sa) /\ ~ derivable (know5 K0 r) (s_dec sa)).
+Proof. exact initiator_only. Qed.
+Print Assumptions C01_initiator_only.
+
+(** ONE END: the responder completed (for a fabric [fb] whose IPK is the secret one).  Then the initiator run
+    DID accept the second message as Sigma2 and sent its Sigma3 - it holds, or sets up as soon as a success
+    status reaches it, the session [sa'] -; both saw the same Sigma1 and Sigma2; the responder's session is bound
+    to the initiator's installed credentials; its keys are the untampered ones (crosswise those of [sa']) exactly
+    when Sigma3 arrived as sent, else the run is in the known class; the attacker cannot derive them. *)
+Theorem C01_responder_only :
+  forall (K0 : knowledge) (SK : list N) (ipk : N) (fa : fabric) (r : dy_run),
+  dy_world K0 SK ipk fa r ->
+  forall (sb : session) (q : sigma1) (fb : fabric),
+  node_wf (dr_b r) ->
+  msg_derivable (know1 K0 r) (dr_m1 r) ->
+  msg_derivable (know2 K0 r) (dr_m2 r) ->
+  msg_derivable (know3 K0 r) (dr_m3 r) ->
+  responder_completed r sb ->
+  parse_sigma1 (dr_m1 r) = Ok q ->
+  get_by_dest_id (n_fabrics (dr_b r)) (g1_random q) (g1_dest q) = Some fb ->
+  f_ipk fb = TNonce ipk ->
+  exists (sa' : session) (rpub : term),
+    initiator_full_sound (dr_a r) (dr_fra r) (dr_fab r) (dr_peer r)
+      (sigma1_of (dr_a r) (dr_fra r) (dr_fab r) (dr_peer r) fa) (dr_m2 r) sa' /\
+    get_req (dr_m2 r) 3 KBytes = Ok rpub /\
+    (let m2 := build_sigma2 fb (dr_frb r) (g1_pub q) (msg_term (dr_m1 r)) in
+     let m3 :=
+       initiator_sigma3 fa (dr_fra r) rpub (sigma1_of (dr_a r) (dr_fra r) (dr_fab r) (dr_peer r) fa)
+         (dr_m2 r) in
+     ro_msgs (run_r1 r) = [m2] /\
+     io_msgs (run_i2 r) = [m3] /\
+     msg_term (dr_m1 r) = msg_term (sigma1_of (dr_a r) (dr_fra r) (dr_fab r) (dr_peer r) fa) /\
+     msg_term (dr_m2 r) = msg_term m2 /\
+     get_req (dr_m3 r) 1 KBytes = get_req m3 1 KBytes /\
+     s_fab sb = f_idx fb /\
+     get_node_id (f_noc fa) = Some (s_peer sb) /\
+     cats_of (f_noc fa) = Ok (s_cats sb) /\
+     (s_enc sa' = s_dec sb /\ s_dec sa' = s_enc sb <-> msg_term (dr_m3 r) = msg_term m3) /\
+     (msg_term (dr_m3 r) <> msg_term m3 -> sigma3_alt m3 (dr_m3 r) = true) /\
+     ~ derivable (know5 K0 r) (s_enc sb) /\ ~ derivable (know5 K0 r) (s_dec sb)).
+Proof. exact responder_only. Qed.
+Print Assumptions C01_responder_only.
+
+(** RESUMPTION BINDING, FULL.  The initiator resumed ([IFinishing]), the responder completed a resumption (arm
+    [A_R_FIN_OK]), and the secret of the initiator's cached record is not [guarded].  Then the Resume2MIC the
+    initiator accepted is the responder run's and the Resume1MIC the responder accepted is the initiator run's
+    (both DERIVED): the responder saw the initiator's random unaltered - the MIC keys are HKDF(random || id,
+    secret), functions of the WHOLE random -, both used the same secret and resumption id, each session copies
+    its record's identity, same directional keys crosswise, not derivable.  (A responder-ONLY resumed session
+    cannot be bound to a live initiator run: a Sigma1 of an earlier attempt can be replayed while the record's id
+    has not rotated, and SigmaFinished is not authenticated - design.d, observation 2.) *)
+Theorem C01_resume_binding :
+  forall (K0 : knowledge) (SK : list N) (ipk : N) (fa : fabric) (r : dy_run),
+  dy_world K0 SK ipk fa r ->
+  forall (ra : record) (nr : term),
+  node_wf (dr_a r) ->
+  node_wf (dr_b r) ->
+  msg_derivable (know1 K0 r) (dr_m1 r) ->
+  msg_derivable (know2 K0 r) (dr_m2 r) ->
+  io_state (run_i2 r) = IFinishing ra nr ->
+  ro_arm (run_r2 r) = A_R_FIN_OK ->
+  ~ guarded (secret_nonces ipk r) SK (r_secret ra) ->
+  exists (sa sb : session) (q : sigma1) (rb : record),
+    n_sessions (io_node (run_i2 r)) = n_sessions (dr_a r) ++ [sa] /\
+    n_sessions (ro_node (run_r2 r)) = n_sessions (dr_b r) ++ [sb] /\
+    s_reserved sa = false /\
+    s_reserved sb = false /\
+    parse_sigma1 (dr_m1 r) = Ok q /\
+    In rb (n_cache (dr_b r)) /\
+    find_by_peer (n_cache (dr_a r)) (dr_fab r) (dr_peer r) = Some ra /\
+    g1_random q = TNonce (fr_rand (dr_fra r)) /\
+    r_secret rb = r_secret ra /\
+    r_rid rb = r_rid ra /\
+    s_fab sa = r_fab ra /\
+    s_peer sa = r_peer ra /\
+    s_cats sa = r_cats ra /\
+    s_fab sb = r_fab rb /\
+    s_peer sb = r_peer rb /\
+    s_cats sb = r_cats rb /\
+    s_enc sa = s_dec sb /\
+    s_dec sa = s_enc sb /\ ~ derivable (know5 K0 r) (s_enc sa) /\ ~ derivable (know5 K0 r) (s_dec sa).
+Proof. exact resume_binding. Qed.
+Print Assumptions C01_resume_binding.
+
 (** The known class is inhabited and violates "both ends hold a session => same directional keys": one
     element appended to Sigma3 on the wire; both ends complete, the keys differ. *)
 Theorem C01_known_class_inhabited :
@@ -192,3 +493,22 @@ Example C01_ex_invalid_chain_rejected :
   outcome (handshake honest_net (mkNode [mkFabric 1 w_root w_bad_noc None 5 w_ipk 9 4369] [] [] 0 w_clock)
                      w_b w_fra w_frb 1 8738) = (false, [], []).
 Proof. exact invalid_chain_rejected. Qed.
+
+(** Non-vacuity of the Dolev-Yao theorems: a world, a run in which the attacker merely relays, both ends complete. *)
+Example C01_ex_dy_world : dy_world relay_K0 [5; 6] d_ipk d_fab_a relay_run.
+Proof. exact relay_world. Qed.
+Example C01_ex_dy_sends : attacker_sends relay_K0 relay_run.
+Proof. exact relay_sends. Qed.
+Example C01_ex_dy_completes : initiator_completed relay_run /\ exists sb, responder_completed relay_run sb.
+Proof. exact relay_completes. Qed.
+Example C01_ex_dy_nodes_wf : node_wf d_a /\ node_wf d_b.
+Proof. exact relay_nodes_wf. Qed.
+
+(** What forging the final StatusReport achieves: an initiator-only session (Sigma3 destroyed, the responder's
+    failure report rewritten into a success report). *)
+Example C01_ex_forged_status :
+  match outcome (handshake forge_status w_a w_b w_fra w_frb 1 8738) with
+  | (true, [sa], []) => negb (s_reserved sa) && (s_peer sa =? 8738) && (s_fab sa =? 1)
+  | _ => false
+  end = true.
+Proof. exact forged_status_gives_initiator_only_session. Qed.
